@@ -117,8 +117,39 @@ func (g *specGen) emit(t int, op Op) {
 
 func (g *specGen) full(t int) bool { return len(g.s.Tasks[t]) >= g.maxOps }
 
+// pickHot returns one of the set bits of mask (below n), or -1.
+func pickHot(r *rng, mask uint64, n int) int {
+	var c [64]int
+	m := 0
+	for i := 0; i < n && i < 64; i++ {
+		if mask&(1<<uint(i)) != 0 {
+			c[m] = i
+			m++
+		}
+	}
+	if m == 0 {
+		return -1
+	}
+	return c[r.intn(m)]
+}
+
+func (g *specGen) pickUnit() int {
+	if hotUnits != 0 && g.r.chance(2) {
+		if u := pickHot(g.r, hotUnits, numUnits); u >= 0 {
+			return u
+		}
+	}
+	return g.r.intn(numUnits)
+}
+
 func (g *specGen) pickKind() int {
 	k := g.r.intn(numKinds)
+	if hotKinds != 0 && g.r.chance(2) {
+		// the calibration pass found kinds that reach statements touching shared state: half of the objects are of those kinds
+		if h := pickHot(g.r, hotKinds, numKinds); h >= 0 {
+			k = h
+		}
+	}
 	if g.noXR && (k == kXR || k == kCompound) {
 		k = g.r.intn(kXR)
 	}
@@ -397,7 +428,7 @@ func (g *specGen) history(t int) {
 	}
 	switch g.r.intn(8) {
 	case 0:
-		g.emit(t, Op{K: opUnit, A: -1, B: -1, N: g.r.intn(numUnits), Seed: g.r.u64()})
+		g.emit(t, Op{K: opUnit, A: -1, B: -1, N: g.pickUnit(), Seed: g.r.u64()})
 	case 1:
 		g.emit(t, Op{K: opNack, A: -1, B: -1, Seed: g.r.u64()})
 	default:
@@ -456,6 +487,12 @@ func (g *specGen) sharedOps(t int) {
 func genSchedConfig(r *rng, n int, estLen uint64, opOnly bool, tier string) SchedConfig {
 	c := SchedConfig{Seed: r.u64(), First: r.intn(n)}
 	c.Strat = r.intn(numStrats)
+	hotStall := false
+	if treeHot > 0 && !opOnly && r.chance(4) {
+		// the tree has statements that touch shared state: a quarter of the runs go to the strategy that holds
+		// a task in front of such a statement while everybody else carries on
+		c.Strat, hotStall = stratStall, true
+	}
 	switch x := r.intn(10); {
 	case x < 6:
 		c.Gran = granStmt
@@ -497,6 +534,16 @@ func genSchedConfig(r *rng, n int, estLen uint64, opOnly bool, tier string) Sche
 		c.StallT = r.intn(n)
 		c.StallAt = uint32(1 + r.u64()%(estLen/uint64(n)+1))
 		c.StallK = int32(1 + r.intn(6))
+		// half of the stall runs freeze the task between two statements that publish shared state (the window in
+		// which everybody else sees the first half of an update), up to three times
+		c.StallHot = treeHot > 0 && !opOnly && (hotStall || r.chance(2))
+		if c.StallHot {
+			c.StallMax = 1 + r.intn(4)
+			c.StallAt = uint32(r.u64() % (estLen/2 + 1)) // a global step count here
+			if c.Gran == granOp {
+				c.Gran = granStmt
+			}
+		}
 	}
 	if r.chance(6) {
 		c.GCRate = uint64(200 + r.intn(3000))
@@ -534,6 +581,9 @@ func genSpec(seed uint64, cold bool, opOnly bool, tier string) *RunSpec {
 	g.noFmt = r.chance(3)
 	g.noXR = r.chance(4)
 	symmetric := cold || r.chance(5)
+	if !symmetric && hotKinds|hotUnits != 0 && r.chance(4) {
+		symmetric = true // the same code in every task at the same time: what shared state is most sensitive to
+	}
 	s.PreRef = !cold && r.chance(2)
 	soak := !cold && r.chance(12)
 
@@ -632,10 +682,18 @@ func genSpec(seed uint64, cold bool, opOnly bool, tier string) *RunSpec {
 		for i := 0; i < np; i++ {
 			privT = append(privT, tmpl{g.pickKind(), r.u64()})
 		}
+		// Either every task holds an equal-valued copy (the same code runs on the same data at the same time), or
+		// every task holds a different value of the same kind (the same code on different data at the same time:
+		// what makes entries of a table shared behind the scenes collide).
+		siblings := r.chance(2)
 		priv := make([][]int, n)
 		for t := 0; t < n; t++ {
 			for _, pt := range privT {
-				priv[t] = append(priv[t], g.newObjSeed(pt.kind, pt.seed, false, false))
+				sd := pt.seed
+				if siblings && t > 0 {
+					sd = (pt.seed ^ uint64(t)*0x9E3779B97F4A7C15) * 0xBF58476D1CE4E5B9
+				}
+				priv[t] = append(priv[t], g.newObjSeed(pt.kind, sd, false, false))
 			}
 		}
 		// one template program, instantiated per task
@@ -654,7 +712,7 @@ func genSpec(seed uint64, cold bool, opOnly bool, tier string) *RunSpec {
 			switch r.intn(10) {
 			case 0:
 				st.kind = opUnit
-				st.n = r.intn(numUnits)
+				st.n = g.pickUnit()
 				st.seed = r.u64()
 			case 1:
 				st.kind = opNack
